@@ -126,7 +126,7 @@ def make_configuration(enc: dict, fc, order_seed: Optional[int] = None,
     from dznpy.adv_shell.common import FacilitiesOrigin  # pylint: disable=import-outside-toplevel
     from dznpy.scoping import NamespaceIds  # pylint: disable=import-outside-toplevel
     prefix = enc.get('prefix')
-    return Configuration(
+    kwargs = dict(
         dezyne_filename=enc.get('filename', 'Model.dzn'), ast_fc=fc,
         output_basename_suffix=enc.get('suffix', 'Shell'),
         fqn_encapsulee_name=encapsulee_name(enc),
@@ -136,6 +136,13 @@ def make_configuration(enc: dict, fc, order_seed: Optional[int] = None,
         copyright=enc.get('copyright', 'Copyright (c) test'),
         support_files_ns_prefix=None if prefix is None else NamespaceIds(list(prefix)),
         creator_info=enc.get('creator'), verbose=bool(enc.get('verbose', False)))
+    # optional settings left at their defaults are left out of the call every other time
+    if len(str(enc.get('encapsulee'))) % 2:
+        for key, default in (('support_files_ns_prefix', None), ('creator_info', None),
+                             ('verbose', False)):
+            if kwargs[key] is default or kwargs[key] == default:
+                del kwargs[key]
+    return Configuration(**kwargs)
 
 
 def build_files(enc: dict, fc, order_seed: Optional[int] = None, builder=None,
